@@ -43,20 +43,22 @@ std::unordered_set<uint64_t>& processIds() {
 } // namespace
 
 void runC45() {
-  const long n = vrt::g_args.getInt("n", vrt::thorough() ? 3200 : 160);
+  // Thread creation under TSan costs ~0.2 s per thread on the shared machine: TSan builds use small waves.
+  const long n = vrt::g_args.getInt("n", VRT_TSAN ? (vrt::thorough() ? 200 : 32) : (vrt::thorough() ? 3200 : 160));
+  const int maxWave = static_cast<int>(vrt::g_args.getInt("maxwave", VRT_TSAN ? 16 : 64));
   const uint64_t mainId = dispenso::threadId();
   for (long idx = 0; idx < n; ++idx) {
     if (!vrt::selected(idx)) continue;
     vrt::Rng r = vrt::caseRng(idx);
     Spec s;
     int nw;
-    if ((idx + idx / 32) % 32 == 31) {
+    if (!VRT_TSAN && (idx + idx / 32) % 32 == 31) {
       // many threads over the life of one case: id reuse / narrow counters
       nw = static_cast<int>(r.range(5, 9));
       for (int w = 0; w < nw; ++w) s.waves.push_back(64);
     } else {
       nw = static_cast<int>(r.range(1, 3));
-      for (int w = 0; w < nw; ++w) s.waves.push_back(static_cast<int>(r.chance(0.3) ? 64 : r.range(1, 64)));
+      for (int w = 0; w < nw; ++w) s.waves.push_back(static_cast<int>(r.chance(0.3) ? maxWave : r.range(1, maxWave)));
     }
     s.calls = r.chance(0.2) ? 1 : 100;
     s.poolThreads = r.chance(0.25) ? static_cast<int>(r.range(1, 8)) : 0;
